@@ -24,7 +24,7 @@ ASSUMPTIONS = [
 ]
 CASES = {"quick": 15000, "thorough": 600000}
 MIN_CASES = {"quick": 3000, "thorough": 10000}
-REQUIRED_COUNTERS = ["fixed_modules_released_before_the_die_was_built", "rectangles_reassigned_through_the_api", "allocated_again_after_initial_grid", "allocated_again_after_further_refinement", "hard_modules_relocated_before_allocation", "ratios_compared", "membership_judged", "fixed_cells_checked", "module_areas_compared", "squares_checked",
+REQUIRED_COUNTERS = ["soft_modules_whose_declared_area_differs_from_their_rectangles", "fixed_modules_released_before_the_die_was_built", "rectangles_reassigned_through_the_api", "allocated_again_after_initial_grid", "allocated_again_after_further_refinement", "hard_modules_relocated_before_allocation", "ratios_compared", "membership_judged", "fixed_cells_checked", "module_areas_compared", "squares_checked",
                      "refine:none", "refine:split", "refine:grid", "zero:on", "zero:off", "full_cover_cells"]
 
 
@@ -37,6 +37,10 @@ def generate(rng, tier, i):
     twice_on_empty = (i % 25 == 7)         # unrefined empty die: allocate, grid it, allocate again
     d = gd.gen_die(rng, max_n=8, struct="empty" if grid or twice_on_empty else None)
     doc = gn.gen_compatible(rng, d)
+    for mname, mm in doc["Modules"].items():
+        # a soft module's declared area is a requirement, its rectangles are its present shape: they need not agree
+        if "area" in mm and "rectangles" in mm and rng.random() < 0.5:
+            mm["area"] = float(f"{mm['area'] * rng.choice([0.3, 0.5, 0.8, 1.25, 2.0]):.6g}")
     if grid:
         ref = ["grid", rng.randint(1, 5), rng.randint(1, 5)]
         if ref[1] + ref[2] < 3:
@@ -99,6 +103,11 @@ def check(case, ctx):
     ctx.count("refine:" + case["refine"][0])
     if case.get("reassign"):
         ctx.count("rectangles_reassigned_through_the_api")
+    for mm in case["netlist"]["Modules"].values():
+        if "area" in mm and "rectangles" in mm and isinstance(mm["area"], (int, float)):
+            rs_ = mm["rectangles"] if not isinstance(mm["rectangles"][0], (int, float)) else [mm["rectangles"]]
+            if abs(mm["area"] - sum(r[2] * r[3] for r in rs_)) > 0.01 * mm["area"]:
+                ctx.count("soft_modules_whose_declared_area_differs_from_their_rectangles")
     if case.get("release"):
         ctx.count("fixed_modules_released_before_the_die_was_built", len(case["release"]))
     want_fixed = sorted(tuple(map(float, r[:4])) for k_, m in case["netlist"]["Modules"].items() if m.get("fixed") and k_ not in (case.get("release") or []) for r in (m["rectangles"] if not isinstance(m["rectangles"][0], (int, float)) else [m["rectangles"]]))
